@@ -49,6 +49,7 @@ func (p *Prog) VerifyFunc(key string) (*VC, error) {
 		return nil, fmt.Errorf("function %s has no contract", key)
 	}
 	vc.safe = vc.contract.Safe
+	vc.privSlices = privateSlices(fi.Pkg.TypesInfo, fi.Decl.Body)
 	prev := -1
 	for i := 0; i < 5 && len(vc.universe) != prev; i++ {
 		prev = len(vc.universe)
